@@ -1,6 +1,13 @@
 // appended to src/xvalue.rs — C13: the checked float constructor
 use crate::runtime::RuntimeLimits;
 
+/// stands in for ManagedXValue::new in harnesses that run without a size limit: the real function accounts 0 bytes then,
+/// but it reads the limit through the Rc'd runtime, so symex also explores the refusal path, on which the XValue is
+/// dropped (recursive drop glue of XExpr behind XFunction).  Never used by the C09 harnesses.
+pub(crate) fn value_new_unlimited<W, R, T>(value: XValue<W, R, T>, runtime: RTCell<W, R, T>) -> RuntimeResult<Rc<ManagedXValue<W, R, T>>> {
+    Ok(Rc::new(ManagedXValue { runtime, size: 0.into(), value }))
+}
+
 /// XValue::float: a Float value is produced only for finite inputs; NaN and the infinities become error values
 #[kani::proof]
 #[kani::stub(std::collections::hash_map::RandomState::new, stub_rs)]
